@@ -389,7 +389,7 @@ def run_obligation(build, ob, tier, replay_dir, prop):
             other = [f for f in wres.get('failed', []) if 'WITNESS' not in f['desc']]
             r['witness'] = {'status': wres['status'], 'time_s': wres['time_s'], 'reached': bool(wf), 'reused': bool(wres.get('reused_identical_query'))}
             if wres['status'] == 'timeout':
-                r['status'] = 'inconclusive'; r['why'] = 'witness twin timeout'
+                r['status'] = 'inconclusive'; r['why'] = ('out of memory (limit %d GB) in the witness twin' % ob.mem_gb) if wres.get('oom') else 'witness twin timeout'
             elif not wf or other:
                 r['status'] = 'vacuous'; r['why'] = 'witness twin did not fail exactly at the WITNESS assertion: %r' % (wres.get('failed', [])[:3],)
         r['queries'] = queries
